@@ -577,6 +577,170 @@ static void hrand_run(uint64_t idx)
 VF_SUITE(heap_random, hrand_count, hrand_run)
 
 // ============================================================================================
+// heap configuration in a FRESH process (re-executed binary): the allocator's globals are exactly as the loader
+// left them, no harness reset has touched them. lin_malloc.cpp documents one knob: __malloc_heap_start "may be
+// changed by the user only before the first malloc() call" (__malloc_heap_end / __malloc_margin are commented out in
+// this port). (a) defaults: blocks in the _heap_start arena; (b) __malloc_heap_start pointed at a custom arena before
+// the first allocator call: every block inside THAT arena and the break returns to its start.
+// ============================================================================================
+extern char *__malloc_heap_start;
+enum : size_t
+{
+    CUSTOM_ARENA = 1u << 16
+};
+alignas(64) static char g_custom_arena[CUSTOM_ARENA];
+
+// runs in the re-executed process; reports through exit status 0 / 65 and a one-line message on fd `out`
+static void fresh_child(const char *spec)
+{
+    int mode = 0, first = 0, out = 1;
+    sscanf(spec, "%d,%d,%d", &mode, &first, &out);
+    auto die = [&](const char *clause, const char *fmt, auto... a) {
+        char msg[600];
+        int n = snprintf(msg, sizeof msg, "%s|", clause);
+        snprintf(msg + n, sizeof msg - n, fmt, a...);
+        ssize_t w = write(out, msg, strlen(msg));
+        (void)w;
+        _exit(65);
+    };
+    char *base = _heap_start;
+    size_t bytes = ARENA;
+    if (mode == 1)
+    {
+        base = g_custom_arena;
+        bytes = CUSTOM_ARENA;
+        __malloc_heap_start = g_custom_arena; // the documented configuration step, before any allocator call
+    }
+    static const size_t SZ[] = {64, 0, 8, 100, 1000, 17, 200};
+    struct B
+    {
+        char *p;
+        size_t n;
+        uint32_t seed;
+    };
+    std::vector<B> live;
+    auto check_block = [&](char *p, size_t n, const char *what) {
+        if (!p)
+            die("returned-null", "%s(%zu) returned NULL", what, n);
+        if ((uintptr_t)p % alignof(void *))
+            die("misaligned", "%s(%zu) misaligned", what, n);
+        if (p < base + sizeof(size_t) || p + n > base + bytes)
+            die("outside-configured-arena", "%s(%zu), the %s allocator call of the process, returned a block %s; configured arena = %s", what, n, live.empty() ? "first" : "a later",
+                (p >= _heap_start && p < _heap_start + ARENA) ? "inside the DEFAULT _heap_start arena" : "outside every arena",
+                mode == 1 ? "custom (__malloc_heap_start set before the first call)" : "default");
+        if (!__brkval || p + n > __brkval || __brkval > base + bytes)
+            die("break-outside-configured-arena", "after %s(%zu) the break is not inside the configured arena", what, n);
+        for (auto &b : live)
+            if (p < b.p + b.n && b.p < p + n)
+                die("overlap", "%s(%zu) overlaps a live block", what, n);
+            else if (p == b.p)
+                die("overlap", "%s(%zu) returned the address of a live block", what, n);
+    };
+    uint32_t seed = 1;
+    auto add = [&](char *p, size_t n) {
+        B b{p, n, seed++};
+        for (size_t i = 0; i < n; i++)
+            p[i] = (char)pat(b.seed, i);
+        live.push_back(b);
+    };
+    auto verify = [&](const char *when) {
+        for (auto &b : live)
+            for (size_t i = 0; i < b.n; i++)
+                if ((uint8_t)b.p[i] != pat(b.seed, i))
+                    die("contents-changed", "%s: a live block changed", when);
+    };
+    // the first allocator call of the process
+    if (first == 1)
+    {
+        char *p = (char *)lin_realloc(nullptr, 40);
+        check_block(p, 40, "realloc(NULL)");
+        add(p, 40);
+    }
+    else if (first == 2)
+        lin_free(nullptr);
+    for (size_t n : SZ)
+    {
+        char *p = (char *)lin_malloc(n);
+        check_block(p, n, "malloc");
+        add(p, n);
+        verify("after malloc");
+    }
+    { // grow one block (moves), shrink another
+        B b = live[2];
+        live.erase(live.begin() + 2);
+        char *q = (char *)lin_realloc(b.p, 300);
+        check_block(q, 300, "realloc");
+        for (size_t i = 0; i < b.n; i++)
+            if ((uint8_t)q[i] != pat(b.seed, i))
+                die("contents-changed", "realloc lost the prefix");
+        add(q, 300);
+        verify("after realloc");
+    }
+    while (!live.empty())
+    {
+        size_t i = (live.size() * 7 + first) % live.size();
+        lin_free(live[i].p);
+        live.erase(live.begin() + i);
+        verify("after free");
+    }
+    if (__brkval != base || __flp)
+        die("not-returned-to-initial-break", "everything freed: break at %+ld relative to the configured arena start, free list %s", (long)(__brkval - base), __flp ? "not empty" : "empty");
+    _exit(0);
+}
+static uint64_t fresh_count() { return 2 * 3; }
+static void fresh_run(uint64_t idx)
+{
+    int mode = idx % 2, first = (idx / 2) % 3;
+    static const char *FN[3] = {"malloc", "realloc(NULL)", "free(NULL)"};
+    char cls[80];
+    snprintf(cls, sizeof cls, "fresh-process:%s-arena:first-call=%s", mode ? "custom" : "default", FN[first]);
+    vf::cls(cls);
+    if (vf::verbose())
+        printf("  %s\n", cls);
+    fflush(nullptr);
+    int po[2];
+    if (pipe(po) != 0)
+        vf::fail("heap:config:harness-pipe", "pipe failed");
+    pid_t pid = fork();
+    if (pid == 0)
+    {
+        close(po[0]);
+        char env[64];
+        snprintf(env, sizeof env, "%d,%d,%d", mode, first, po[1]);
+        setenv("C10_FRESH_CHILD", env, 1);
+        char *argv[] = {(char *)"harness-fresh-heap", nullptr};
+        execv("/proc/self/exe", argv);
+        _exit(93);
+    }
+    close(po[1]);
+    char msg[700];
+    ssize_t got = read(po[0], msg, sizeof msg - 1);
+    msg[got > 0 ? got : 0] = 0;
+    close(po[0]);
+    int st = 0;
+    waitpid(pid, &st, 0);
+    if (WIFEXITED(st) && WEXITSTATUS(st) == 65)
+    {
+        char *bar = strchr(msg, '|');
+        if (bar)
+            *bar = 0;
+        char key[160];
+        snprintf(key, sizeof key, "heap:config:%s:%s-arena", msg, mode ? "custom" : "default");
+        vf::fail(key, "fresh process, first allocator call %s: %s", FN[first], bar ? bar + 1 : "");
+    }
+    if (!(WIFEXITED(st) && WEXITSTATUS(st) == 0))
+    {
+        char key[160];
+        snprintf(key, sizeof key, "heap:config:child-died:%s-arena", mode ? "custom" : "default");
+        vf::fail(key, "fresh process (first call %s) ended with status %#x (a sanitizer report, if any, is in the worker log)", FN[first], st);
+    }
+    VF_OK(mode ? "heap fresh process: __malloc_heap_start set before the first call -> every block in that arena, break returns to its start"
+               : "heap fresh process: defaults -> every block in the _heap_start arena, break returns to its start");
+    vf::count_case(vf::mix(0xF5, idx), true);
+}
+VF_SUITE(heap_fresh_process, fresh_count, fresh_run)
+
+// ============================================================================================
 // pools
 // ============================================================================================
 // Raw pools (pool_head, igris::pool) take the cell size as a parameter. The pool keeps its free-list link
@@ -1527,6 +1691,9 @@ VF_SUITE(sop_family, sopfam_count, sopfam_run)
 
 extern "C" void vf_setup()
 {
+    if (const char *fc = getenv("C10_FRESH_CHILD"))
+        fresh_child(fc); // re-executed process: never returns
+
     for (const char *c :
          {"heap: returned block aligned for pointers", "heap: returned block inside [arena start, break)", "heap: returned block overlaps no live block",
           "heap: contents of every live block untouched", "heap: free list inside arena, address-ordered, coalesced",
@@ -1553,6 +1720,8 @@ extern "C" void vf_setup()
           "pool multi-zone: block is a cell of one of the engaged zones, not live", "pool multi-zone: engage while free blocks remain keeps them",
           "pool multi-zone: engage on an exhausted, partly used pool", "pool multi-zone: engage on a pool with no live block",
           "pool multi-zone: exactly sum-of-zones blocks then null; after freeing all every cell is free",
-          "pool multi-zone: every short history over get/put/engage(1|2|3 cells), then fill and drain"})
+          "pool multi-zone: every short history over get/put/engage(1|2|3 cells), then fill and drain",
+          "heap fresh process: __malloc_heap_start set before the first call -> every block in that arena, break returns to its start",
+          "heap fresh process: defaults -> every block in the _heap_start arena, break returns to its start"})
         vf::require(c);
 }
